@@ -250,7 +250,12 @@ func (s *Session) Run(ctx context.Context, dir string, args ...string) error {
 						log.Printf("ignoring %s", line)
 						continue
 					} else {
-						for _, output := range iop.OutputSet {
+						for i := range iop.OutputSet {
+							// Use the Output itself (not a copy), so
+							// that an Output that has been satisfied
+							// is remembered and isn't counted again
+							// when the same message shows up twice.
+							output := &iop.OutputSet[i]
 							if output.Bindingss != nil {
 								continue
 							}
